@@ -36,6 +36,10 @@ def flow_lattice(quick):
         {"net": "mlp"},
         {"net": "resnet"},
         {"distribution": "mvn"},
+        {"distribution": "mvn", "distribution_kwargs": {"var": 4.0}},
+        {"distribution": "mvn", "distribution_kwargs": {"var": 0.25}},
+        {"ftype": "nsf", "distribution": "mvn", "distribution_kwargs": {"var": 2.0}},
+        {"distribution": "uniform", "distribution_kwargs": {"low": -3.0, "high": 3.0}},
         {"distribution": "lars"},
         {"ftype": "maf", "batch_norm_between_layers": True},
         {"ftype": "nsf", "num_bins": 4},
